@@ -290,15 +290,22 @@ XPathExecutionContextDefault::getContextNodeListPosition(const XalanNode&   cont
 {
     assert(m_contextNodeListStack.empty() == false);
 
-    if (m_cachedPosition.m_node == &contextNode)
+    const NodeRefListBase&  theList = *m_contextNodeListStack.back();
+
+    // The context node list can change while it is the current one
+    // (predicates remove nodes from it), so a cached position is only
+    // good if the node is still at that position.
+    if (m_cachedPosition.m_node == &contextNode &&
+        m_cachedPosition.m_index != 0 &&
+        m_cachedPosition.m_index <= theList.getLength() &&
+        theList.item(m_cachedPosition.m_index - 1) == &contextNode)
     {
-        assert((m_cachedPosition.m_index == 0 && m_contextNodeListStack.back()->indexOf(&contextNode) == NodeRefListBase::npos) ||
-               (m_contextNodeListStack.back()->indexOf(&contextNode) + 1 == m_cachedPosition.m_index));
+        assert(theList.indexOf(&contextNode) + 1 == m_cachedPosition.m_index);
     }
     else
     {
         // Get the index of the node...
-        const size_type     theIndex = m_contextNodeListStack.back()->indexOf(&contextNode);
+        const size_type     theIndex = theList.indexOf(&contextNode);
 
         // If not found, it's 0.  Otherwise, it's the index + 1
         m_cachedPosition.m_index = theIndex == NodeRefListBase::npos ? 0 : theIndex + 1;
